@@ -779,3 +779,86 @@ def spec_from_seed(seed, boundary=True, chains=None, finite_clock=None, clustere
     workers = [r.randrange(k) for _ in range(k)]
     sched = {"start_order": order, "finish_order": fin, "worker_of": workers}
     return dict(inputs=inp, options=opts, max_time=max_time, deltas=deltas, schedule=sched, via_cli=r.random() < 0.25, seed=seed)
+
+
+
+def jsonable_spec(spec):
+    s = {k: v for k, v in spec.items() if k != "draw_budget"}
+    if isinstance(s.get("max_time"), float) and math.isinf(s["max_time"]):
+        s["max_time"] = "inf"
+    return s
+
+
+def unjson_spec(spec):
+    s = dict(spec)
+    if s.get("max_time") == "inf":
+        s["max_time"] = float("inf")
+    return s
+
+
+def minimise_spec(spec, fails, budget_s=60, keep_chains=False):
+    """Greedy descent on the whole run description while the same violation class persists: fewer chains, iterations,
+    particles, mutations, samples; features switched off; the clock script and schedule simplified."""
+    import copy
+    import time
+
+    t0 = time.time()
+    cur = copy.deepcopy(spec)
+
+    def variants(sp):
+        o = sp["options"]
+        for name, vals in ((("num_chains", [1]) if not keep_chains else ("num_chains", [2])), ("num_iters", [1, 2]), ("burnin", [1]), ("num_particles", [1, 2]), ("thin", [1]),
+                           ("subtree_update_prob", [0.0]), ("concentration_update", [False]), ("outlier_prob", [0.0]), ("grid_size", [11]),
+                           ("num_samples_data_point", [1, 0]), ("num_samples_prune_regraph", [1, 0]), ("resample_threshold", [0.5]),
+                           ("concentration_value", [1.0]), ("density", ["binomial"])):
+            for v in vals:
+                if o.get(name) != v:
+                    t = copy.deepcopy(sp)
+                    t["options"][name] = v
+                    if name == "num_chains":
+                        t["schedule"] = {}
+                    yield t
+        if sp.get("max_time") not in ("inf", float("inf")):
+            t = copy.deepcopy(sp)
+            t["max_time"] = "inf"
+            t["deltas"] = [0.0]
+            yield t
+        if sp.get("via_cli"):
+            t = copy.deepcopy(sp)
+            t["via_cli"] = False
+            yield t
+        inp = sp["inputs"]
+        muts = sorted(set(r_["mutation_id"] for r_ in inp["rows"]))
+        if len(muts) > 1:
+            for m in muts:
+                t = copy.deepcopy(sp)
+                t["inputs"]["rows"] = [r_ for r_ in inp["rows"] if r_["mutation_id"] != m]
+                if inp.get("cluster_rows"):
+                    t["inputs"]["cluster_rows"] = [r_ for r_ in inp["cluster_rows"] if r_["mutation_id"] != m]
+                yield t
+        if len(inp["samples"]) > 1:
+            keep = inp["samples"][0]
+            t = copy.deepcopy(sp)
+            t["inputs"]["samples"] = [keep]
+            t["inputs"]["rows"] = [r_ for r_ in inp["rows"] if r_["sample_id"] == keep]
+            if inp.get("cluster_rows"):
+                t["inputs"]["cluster_rows"] = [r_ for r_ in inp["cluster_rows"] if r_["sample_id"] == keep]
+            yield t
+        if inp.get("cluster_rows"):
+            t = copy.deepcopy(sp)
+            t["inputs"]["cluster_rows"] = None
+            yield t
+
+    changed = True
+    while changed and time.time() - t0 < budget_s:
+        changed = False
+        for t in variants(cur):
+            if time.time() - t0 > budget_s:
+                break
+            if fails(t):
+                cur = t
+                changed = True
+                break
+    return cur
+
+
